@@ -143,7 +143,7 @@ where
             // free running: a watchdog thread turns a hang into a verdict
             let t0 = std::time::Instant::now();
             while !h.is_finished() {
-                std::thread::sleep(std::time::Duration::from_millis(2));
+                std::thread::sleep(std::time::Duration::from_micros(250));
                 if t0.elapsed().as_secs() > 20 {
                     let evs = take_log();
                     on_stuck(evs, json!({"ev":"stuck","verdict":"hang","sched":{"steps":0,"granted":[],"diverged":0,"workers":[]}}));
@@ -253,6 +253,10 @@ fn main() {
     let mut w = BufWriter::new(std::fs::OpenOptions::new().create(true).append(true).open(outp).unwrap());
     // ---- build the deterministic job list
     let mut jobs: Vec<(Model, PCfg, String)> = vec![];
+    // --sweep k (mode free): k further instances per listed instance are solved free-running WITHOUT being written out, unless the outcome
+    // disagrees with the harness' own optimum (those are written like any other run and judged by TLC)
+    let sweep = argn(&args, "--sweep", 0) as usize;
+    let mut quiet: Vec<bool> = vec![];
     if let Some(f) = jobs_file {
         // explicit jobs: [{inst, cfg, role}]
         let v: Vec<Value> = serde_json::from_str(&std::fs::read_to_string(f).unwrap()).unwrap();
@@ -320,6 +324,19 @@ fn main() {
                         c.nspawn = c.nconstr;
                         c.cut_poll = if k % 2 == 1 { r.gen_range(1..30) } else { 0 };
                         jobs.push((Model::from_json(&m.to_json()), c, if k % 2 == 1 { "cut".into() } else { "free".into() }));
+                        if k == 0 {
+                            for j in 0..sweep {
+                                let m2 = gen_model(&fam, seed.wrapping_mul(104729).wrapping_add((i * sweep + j) as u64), maxn, true);
+                                let nt = r.gen_range(2..=6);
+                                let c2 = PCfg { sched: "free".into(), nconstr: nt, nspawn: nt, cut_poll: 0, sseed: r.gen(), dd: ["lel", "fc", "pooled"][r.gen_range(0..3)].into(),
+                                                cache: r.gen_bool(0.5), dom: false, width: [1, 1, 2, 2, 3][r.gen_range(0..5)], ..base.clone() };
+                                jobs.push((m2, c2, "free".into()));
+                                while quiet.len() < jobs.len() - 1 {
+                                    quiet.push(false);
+                                }
+                                quiet.push(true);
+                            }
+                        }
                     }
                     "primal" => {
                         if let (Some((vo, so)), Some((vw, sw))) = (m.witness(false), m.witness(true)) {
@@ -332,6 +349,7 @@ fn main() {
             }
         }
     }
+    let (mut swept, mut suspects) = (0usize, 0usize);
     for (run, (m, cfg, role)) in jobs.iter().enumerate().skip(start) {
         let reset = json!({"ev":"reset","run":run,"inst":m.to_json(),"cfg":cfg.json(),"role":role,
                            "level": if cfg.sched == "free" { "locked" } else { "full" }});
@@ -344,6 +362,15 @@ fn main() {
             };
             run_par(m, cfg, &mut stuck)
         };
+        if quiet.get(run).copied().unwrap_or(false) {
+            let val = if ret["has_value"].as_bool().unwrap() { Some(ret["best_value"].as_i64().unwrap()) } else { None };
+            let bad = ret["panicked"].as_bool().unwrap() || ret["watchdog"].as_bool().unwrap() || !ret["is_exact"].as_bool().unwrap() || val != m.opt().map(|o| o as i64);
+            swept += 1;
+            if !bad {
+                continue;
+            }
+            suspects += 1;
+        }
         writeln!(w, "{}", reset).unwrap();
         if cfg.sched == "free" {
             // lock-free events are not totally ordered with the rest: keep the lock-protected protocol only
@@ -359,5 +386,8 @@ fn main() {
             writeln!(w, "{}", s2).unwrap();
         }
         w.flush().unwrap();
+    }
+    if sweep > 0 {
+        eprintln!("SWEEP runs={} suspects={}", swept, suspects);
     }
 }
